@@ -267,12 +267,12 @@ func (c *c13) Apply(e seqx.Event) seqx.StepResult {
 				}
 			}
 		}
-		d0 := c.W.V.Dump(pfcp.DumpOpt{NoTrans: true})
+		d0 := c.W.V.Dump(pfcp.DumpOpt{NoTrans: true, NoExtra: true})
 		o = c.W.Notify(simk.BufferMsg(seid, 1, aBUFF|aNOCP, []byte("pkt:gone")))
 		if j.Crashed(c.W.World, o) {
 			break
 		}
-		if n := cnt(o); n != 0 || c.W.V.Dump(pfcp.DumpOpt{NoTrans: true}) != d0 {
+		if n := cnt(o); n != 0 || c.W.V.Dump(pfcp.DumpOpt{NoTrans: true, NoExtra: true}) != d0 {
 			j.Fail("gone-session-buffered", "a buffer notification for a non-existent session caused %d message(s) or a state change", n)
 		}
 		noEmit("buffer notification for a non-existent session")
